@@ -3,7 +3,7 @@
    separator consists of spaces, newlines and commas, then lexing the flattened layout
    yields exactly its token pieces, with the byte offsets at which they were written. *)
 From Coq Require Import List NArith Bool Lia.
-From GQL Require Import Base.Bytes Syntax.Lexer Syntax.Ast Syntax.Parser Syntax.Printer Proofs.SyntaxPrinter.
+From GQL Require Import Base.Bytes Syntax.Lexer Syntax.Ast Syntax.Parser Syntax.Printer Proofs.SyntaxPrinter Proofs.SyntaxUtf8.
 Import ListNotations.
 Open Scope N_scope.
 
@@ -362,6 +362,16 @@ Proof.
   - intros fuel pos Hf. rewrite R in *. apply Hread. exact Hf.
 Qed.
 
+Lemma tok_ok_string_utf8 : forall v rest, utf8_valid v ->
+  (v <> [] \/ forall r, rest <> 34 :: r) -> tok_ok STRING v rest.
+Proof.
+  intros v rest Hv Hne. destruct (quote_lex_roundtrip_utf8 v rest Hv Hne) as (q & Hq & Hread).
+  assert (R : render_piece (PTok STRING v) = q) by (cbn [render_piece]; unfold quote_str; rewrite Hq; reflexivity).
+  split; [discriminate|]. split.
+  - rewrite R. destruct (quote_string_head _ _ Hq) as (y & ->). exists 34, y. split; reflexivity.
+  - intros fuel pos Hf. rewrite R in *. apply Hread. exact Hf.
+Qed.
+
 (* ---- a decidable sufficient condition, and the theorem for whole layouts ---- *)
 Definition not_quote (rest : bytes) : bool := match rest with b :: _ => negb (b =? 34) | [] => true end.
 Definition num_okb (v : bytes) (isf : bool) : bool :=
@@ -375,7 +385,7 @@ Definition piece_wfb (k : tkind) (v rest : bytes) : bool :=
   | NAME => name_ok v && bound_ok rest
   | INT => num_okb v false && bound_ok rest
   | FLOAT => num_okb v true && bound_ok rest
-  | STRING => forallb (fun c => c <? 128) v && (negb (is_nil v) || not_quote rest)
+  | STRING => str_okb v && (negb (is_nil v) || not_quote rest)
   | EOF | BLOCK_STRING => false
   | _ => is_nil v
   end.
@@ -401,8 +411,8 @@ Proof.
   - apply andb_true_iff in H. destruct H. apply tok_ok_name; assumption.
   - apply andb_true_iff in H. destruct H as [H1 H2]. apply (tok_ok_num v rest false (num_okb_ok _ _ H1) H2).
   - apply andb_true_iff in H. destruct H as [H1 H2]. apply (tok_ok_num v rest true (num_okb_ok _ _ H1) H2).
-  - apply andb_true_iff in H. destruct H as [H1 H2]. apply tok_ok_string_ascii.
-    + intros c Hc. rewrite forallb_forall in H1. apply N.ltb_lt. apply H1. exact Hc.
+  - apply andb_true_iff in H. destruct H as [H1 H2]. apply tok_ok_string_utf8.
+    + apply (utf8_okb_valid _ _ H1).
     + apply orb_true_iff in H2. destruct H2 as [H2|H2].
       * left. destruct v; [discriminate H2|discriminate].
       * right. intros r ->. discriminate H2.
